@@ -76,6 +76,12 @@ def restore(d, full):
     common.materialize(d, gen.snap_to_tree(full))
 
 
+def lock_left(d):
+    """the lock file, or a temp file of it, is still there"""
+    rd = os.path.join(d, ".renamify")
+    return os.path.isdir(rd) and any(n == "renamify.lock" or n.startswith("renamify.lock.") for n in os.listdir(rd))
+
+
 def history_len(d):
     p = os.path.join(d, HIST)
     if not os.path.exists(p):
@@ -97,6 +103,7 @@ def norm_trace(events):
     return out
 
 
+_LOCKTMP = re.compile(r"^\.renamify/renamify\.lock\.\d+\.tmp$")
 _PROBE = re.compile(r"^\.tmp[A-Za-z0-9]{6}(/|$)")
 
 
@@ -106,12 +113,16 @@ def letter(e):
         return "o"
     if _PROBE.match(e.path):
         return "o"          # detect_case_insensitive_fs: created and removed, never part of the user tree
+    if e.op == "link" and e.path2 == LOCK:
+        return "L"          # the lock file appears (temp file linked to the lock path)
     if e.path == LOCK:
         if e.op == "openw":
-            return "L"
+            return "L"      # … or is created in place (O_EXCL), as before 35d666f
         if e.op == "unlink":
             return "U"
         return "o"
+    if _LOCKTMP.match(e.path):
+        return "o"          # renamify.lock.<pid>.tmp: a lock-class call below .renamify, never a user-tree call
     if (e.path == HIST and e.op == "openw") or (e.op == "rename" and e.path2 == HIST):
         return "h"          # the moment the new history becomes visible (written in place, or temp file renamed over it)
     paths = [e.path] + ([e.path2] if e.path2 else [])
@@ -125,7 +136,7 @@ def letters(run):
 
 
 def observe(d, run, base, hist0):
-    return {"rc": run.rc, "calls": len(run.mutating), "lock": os.path.exists(os.path.join(d, LOCK)),
+    return {"rc": run.rc, "calls": len(run.mutating), "lock": lock_left(d),
             "hist": history_len(d) - hist0, "user_calls": letters(run).count("u"),
             "handler_ran": b"Received SIG" in run.stderr, "trace": norm_trace(run.events),
             "stderr": run.stderr.decode("utf-8", "replace")[-300:]}
@@ -366,7 +377,7 @@ def prompt_cases(ctx, command, job_tree, S, R, thorough):
             out.append({"command": command, "args": args, "signal": name, "answer": answer.decode().strip() if answer else None,
                         "prompt_seen": seen, "rc": rc,
                         "state": "complete" if after == complete else "unchanged" if after == before else "partial",
-                        "lock": os.path.exists(os.path.join(d, LOCK)), "hist": history_len(d),
+                        "lock": lock_left(d), "hist": history_len(d),
                         "letters": letters(run), "calls": len(run.mutating),
                         "cancelled_msg": b"Operation cancelled by user." in buf,
                         "tail": buf[-160:].decode("utf-8", "replace")})
@@ -395,7 +406,7 @@ def stale_case(sig, rep, k):
         tree_after = common.snapshot(d)
         return {"signal": sig, "repeat": rep, "k": k, "base_rc": base.rc, "base_partial": base_tree != before,
                 "base_letters": letters(base), "rc": r.rc, "same_tree_as_base": tree_after == base_tree,
-                "unchanged": tree_after == before, "hist": history_len(d), "lock": os.path.exists(os.path.join(d, LOCK)),
+                "unchanged": tree_after == before, "hist": history_len(d), "lock": lock_left(d),
                 "handler_ran": b"Received SIG" in r.stderr, "calls": len(r.mutating),
                 "error_line_shown": b"Error:" in r.stderr, "diff": common.snap_diff(before, tree_after),
                 "base_stderr": base.stderr.decode("utf-8", "replace")[-200:]}
@@ -544,7 +555,8 @@ def run(ctx):
                     prog = pre + "P" + ("U" if r["answer"] == "n" else post)     # declined: only the lock release follows
                     exited = 1 if r["answer"] is None and r["cancelled_msg"] else 0
                 else:
-                    prog = pre + ("" if r["answer"] == "n" else post)             # no guard step in replace
+                    # no guard step in replace; declined: only the release of the lock taken before the prompt follows
+                    prog = pre + (("U" if "L" in pre else "") if r["answer"] == "n" else post)
                     exited = 0
                 preqs.append(model_request(prog, 0, pre_n, r["signal"], 1))
                 pexp.append((case, f"status={r['rc']} calls={r['calls']} lock={1 if r['lock'] else 0} "
@@ -611,7 +623,7 @@ def replay(ctx, path):
             wait_for = b"Apply? [y/N]:" if case["args"][0] == "rename" else b"[y/N]:"
             seen, rc, buf, run = run_pty(case["args"], d, signo, ans, wait_for=wait_for)
             r = {"prompt_seen": seen, "rc": rc, "unchanged": common.snapshot(d) == before,
-                 "lock": os.path.exists(os.path.join(d, LOCK)), "tail": buf[-160:].decode("utf-8", "replace")}
+                 "lock": lock_left(d), "tail": buf[-160:].decode("utf-8", "replace")}
         print(json.dumps(r, indent=1))
         want_rc = 130 if case.get("signal") else 0
         if r["lock"] or not seen or rc != want_rc or (case.get("answer") != "y" and not r["unchanged"]):
